@@ -26,8 +26,12 @@ ASSUMPTIONS = [
     "2.x: isPersisted / isExplicitlyExported are constant 1 through the crate API and the isPersist* triggers are not modelled "
     "(the raw dump checks the constants)",
 ]
-MANIFEST_TEXT = ("Schema 2.x: refinement of the abstract forest Spec by the Playlist model for every operation sequence "
-                 "(per-op simulation, invariant: chains well-formed, parents live, acyclic, sibling names unique), tied to the "
+MANIFEST_TEXT = ("Schema 2.x: Lean theorems (Properties/C07V2.lean): for every history of the modelled 2.x API the Spec.Forest judge, "
+                 "driven by the Model's own answers, never objects and the forest it tracks is exactly the abstraction of the "
+                 "Playlist table (per-operation refinement FStep; invariant Forest.Wf: ids a key, parents live, parent relation "
+                 "ranked hence acyclic, names valid and unique among siblings); every structural query equals the Spec query; "
+                 "whatever the Spec rejects (cycle, dead parent, invalid or taken name) is rejected without effect; a removed "
+                 "subtree is never valid again; ids are never reused. Tied to the "
                  "real library by breadth-first exploration of all distinct model states with <= 4 crates (every operation, "
                  "including operations on removed handles and invalid names) plus random deep histories, on the 2.x versions.")
 replay = cv.replay
